@@ -2200,6 +2200,19 @@ class PathSim:
         return self._decide(sym, node, st, frame)
 
     def _atom_compare(self, node, op, l, r, st, frame):
+        # len(xs) of a LOCAL list that is followed element by element on this path (a fresh display grown by append, the value of an expanded
+        # comprehension) is that many: `if len(found) == 1` after a loop that appended nothing is decided, not forked
+        def known_len(x):
+            if isinstance(x, ast.Call) and isinstance(x.func, ast.Name) and x.func.id == 'len' and len(x.args) == 1 and not x.keywords:
+                a = x.args[0]
+                while isinstance(a, ast.Call) and isinstance(a.func, ast.Name) and a.func.id in ('list', 'tuple') and len(a.args) == 1 and not a.keywords:
+                    a = a.args[0]
+                if (isinstance(a, ast.Name) and getattr(a, '_origin', None) is not None and isinstance(a._origin, ast.List)) or hasattr(a, '_elts'):
+                    elts = _literal_elts(a)
+                    if elts is not None:
+                        return ast.Constant(value=len(elts))
+            return x
+        l, r = known_len(l), known_len(r)
         okl, cl = const_value(l)
         okr, cr = const_value(r)
         if okl and okr:
